@@ -148,7 +148,7 @@ pub fn run(ctx: &Ctx) -> Report {
         check(&obs, rep, &d);
     });
     rep.merge(r);
-    if !ctx.miri && ctx.only.is_none() {
+    if ctx.strict() {
         rep.require("reads_checked", 1000);
         rep.require("deadlock_checks_armed", 10);
         rep.require("reads_delivering_several_commands", 10);
